@@ -1312,6 +1312,7 @@ def impl_fixed(ip):
 def stage_w(rep, rng, n, fixed, ip):
     """W-correspondence on n generated projects, each run fresh and with a pre-filled find cache."""
     calls, impls, metas = [], [], []
+    direct_fail = [0]
     with project.Scratch('c18w') as s:
         for i in range(n):
             g = Gen(random.Random(rng.getrandbits(48)), size=rng.choice([0.3, 0.6, 1.0]),
@@ -1337,6 +1338,29 @@ def stage_w(rep, rng, n, fixed, ip):
             if '' in g.opt_scripts:
                 opts = [m_node('src', 'options.bfg')] + [m_node('src', norm(d, 'options.bfg'))
                                                           for d in g.opt_scripts if d != '']
+            # direct oracle (independent of the model): every entry a dist=True find call listed as include / not_now
+            # must be a member of the distribution, in the fresh run and in the cache-served run
+            class _Rec(ToModel):
+                def __init__(self, *a):
+                    self.rec = []
+                    super().__init__(*a)
+
+                def find(self, spec):
+                    ev = self.walks[self.nfind] if self.nfind < len(self.walks) else []
+                    self.rec.append((spec, ev))
+                    return super().find(spec)
+            for tag, obs in (('fresh', o1), ('cache-served', o2)):
+                mem = set(tuple(m) for m in obs['members'])
+                for spec, ev in _Rec(g, walks, False).rec:
+                    if not spec.get('dist', True):
+                        continue
+                    for (r, pth, inc) in ev:
+                        if r == 'src' and (ROOTS['src'], pth) not in mem and (ROOTS['src'], pth.rstrip('/')) not in mem:
+                            rep.fail('find entry %r (%s) of a dist=True find call %r is not in the distribution (%s run)' % (
+                                pth, 'found' if inc else 'extra', {k: spec.get(k) for k in ('cache', 'extra', 'filter', 'type')}, tag),
+                                {'kind': 'find-entry-not-in-dist', 'files': files, 'entry': pth, 'spec': spec, 'run': tag},
+                                classes=('find-cache-hit-extra',) if (tag == 'cache-served' and not inc) else ())
+                            direct_fail[0] += 1
             for hit, obs, wk in ((False, o1, walks), (True, o2, walks)):
                 tm = ToModel(g, wk, hit)
                 calls.append(('dist_run', [fixed, m_node('src', 'build.bfg'), tm.calls, opts, 'gzip', '.tar.gz',
